@@ -157,4 +157,20 @@ theorem ksN_bytes (rk jb : List Nat) (c n : Nat) : ∀ x ∈ ksN rk jb c n, x < 
   obtain ⟨i, _, hi⟩ := hx
   exact encB_bytes _ _ x hi
 
+/-- the input of the ladder is readable from offset `o` on (in the in-place call the bytes before `o` have been overwritten) -/
+def SrcFrom (mem : List Region) (sp : Nat) (src : List Nat) (o : Nat) : Prop :=
+  ∀ off n, o ≤ off → off + n ≤ src.length → readMem mem (sp + off) n = .ok ((src.drop off).take n)
+
+theorem SrcFrom.ofData {mem : List Region} {sp : Nat} {src : List Nat} (h : DataAt mem sp src) (o : Nat) : SrcFrom mem sp src o :=
+  fun off n _ hn => h off n hn
+
+theorem SrcFrom.mono {mem : List Region} {sp : Nat} {src : List Nat} {o : Nat} (h : SrcFrom mem sp src o) (o' : Nat) (ho : o ≤ o') :
+    SrcFrom mem sp src o' := fun off n h1 hn => h off n (by omega) hn
+
+theorem SrcFrom.toData {mem : List Region} {sp : Nat} {src : List Nat} {o : Nat} (h : SrcFrom mem sp src o) (ho : o ≤ src.length) :
+    DataAt mem (sp + o) (src.drop o) := by
+  intro off n hn
+  rw [List.length_drop] at hn
+  rw [Nat.add_assoc, h (o + off) n (by omega) (by omega), List.drop_drop]
+
 end SMGo.Proofs.ISAVal
